@@ -4,6 +4,7 @@ import os
 import tempfile
 import numpy as np
 from hypothesis import strategies as st
+from vlib import strategies as S
 
 from vlib.runner import Outcome, cut, CutError, close
 
@@ -26,7 +27,7 @@ ASSUMPTIONS = [
     'agrees with u to 1e-8 relative on the nearer tail',
     'lin_std is not covered by the statement and not judged',
 ]
-REQUIRED = {'kind:Uniform': 0.1, 'kind:LogUniform': 0.1, 'kind:Gaussian': 0.1, 'kind:LogGaussian': 0.1,
+REQUIRED = {'mean-zero': 0.03, 'kind:Uniform': 0.1, 'kind:LogUniform': 0.1, 'kind:Gaussian': 0.1, 'kind:LogGaussian': 0.1,
             'reversed-bounds': 0.1, 'via:parser': 0.1, 'lin-arg': 0.1}
 
 
@@ -34,14 +35,14 @@ def _mag():
     # floats of any magnitude, both signs
     return st.one_of(
         st.floats(-1e3, 1e3),
-        st.builds(lambda m, e, s: s * m * 10.0 ** e, st.floats(1.0, 9.999), st.integers(-300, 299),
+        st.builds(lambda m, e, s: s * m * 10.0 ** e, st.floats(1.0, 9.999), S.ints(-300, 299),
                   st.sampled_from([-1.0, 1.0])),
-        st.integers(-1000, 1000).map(float))
+        S.ints(-1000, 1000).map(float))
 
 
 def _pos():
     return st.one_of(st.floats(1e-3, 1e3),
-                     st.builds(lambda m, e: m * 10.0 ** e, st.floats(1.0, 9.999), st.integers(-300, 299)))
+                     st.builds(lambda m, e: m * 10.0 ** e, st.floats(1.0, 9.999), S.ints(-300, 299)))
 
 # coverage-guided extra (thorough tier): pure-Python modules on the text -> prior path
 FUZZ = {'include': ['taurex.core.priors', 'taurex.util.fitting', 'taurex.parameter.factory', 'taurex.parameter.parameterparser'],
@@ -60,16 +61,16 @@ def _case(draw):
         else:
             args['bounds'] = [draw(st.floats(-300, 300)), draw(st.floats(-300, 300))]
     elif kind == 'Gaussian':
-        args['mean'] = draw(_mag())
+        args['mean'] = draw(st.one_of(st.just(0.0), _mag(), _mag()))       # a mean of exactly zero is a value like any other
         args['std'] = draw(_pos())
     else:
         if draw(st.booleans()):
-            args['lin_mean'] = draw(_pos())
+            args['lin_mean'] = draw(st.one_of(st.just(1.0), _pos(), _pos()))   # log10 = 0
         else:
             args['mean'] = draw(st.floats(-300, 300))
         args['std'] = draw(st.floats(1e-3, 50.0))
     us = draw(st.lists(st.one_of(st.floats(0.0, 1.0), st.floats(0.0, 1e-6), st.floats(1 - 1e-6, 1.0),
-                                 st.builds(lambda e: 10.0 ** e, st.integers(-300, -1))),
+                                 st.builds(lambda e: 10.0 ** e, S.ints(-300, -1))),
                        min_size=2, max_size=8))
     fmt = {
         'name': draw(st.sampled_from(['exact', 'lower', 'upper'])),
@@ -224,6 +225,8 @@ def check(case):
     out = Outcome()
     kind, args, us = case['kind'], case['args'], list(case['us']) + [0.0, 1.0]
     out.cls('kind:' + kind)
+    if args.get('mean') == 0.0 or args.get('lin_mean') == 1.0:
+        out.cls('mean-zero')
     degenerate = False
     for key in ('bounds', 'lin_bounds'):
         if key in args:
